@@ -48,8 +48,6 @@ def run(prop, tier, seed):
                 if not ok and not c.get("mustreject"):
                     rep.finding("C03|accepted-runs-into-fault|%s" % fam_key, c, o, [{"status": st, "panic": o.get("panic")}],
                                 "accepted and compiled, but the run ends with %s %s" % (st, o.get("panic", "")))
-        if False:
-            pass
         elif chk == "diag":
             rejected += 1
         else:
